@@ -407,6 +407,37 @@ pub fn run(ctx: &Ctx) -> i32 {
             }
         });
     }
+    // ---- every opaque RGB colour against small palettes
+    if ctx.wants_family("all-rgb") {
+        let palettes: Vec<Vec<[u8; 3]>> = vec![
+            vec![[0, 0, 0], [0x80, 0x80, 0x80], [255, 255, 255], [1, 2, 3], [200, 100, 50]],
+            vec![[0x12, 0x34, 0x56], [0x56, 0x34, 0x12], [0xff, 0x00, 0xff], [0x7f, 0x7f, 0x7f], [0x00, 0xff, 0x00], [0xa8, 0x3c, 0xa8]],
+        ];
+        let pals: Vec<_> = if thorough { palettes.clone() } else { palettes[..1].to_vec() };
+        ctx.family("all-rgb", pals.len() as u64 * (1u64 << 24), &format!("{} palette(s) of 5-6 colours: lookup of EVERY opaque 24-bit RGB colour (16,777,216 queries each): the entry's index for the palette's own colours, the failure index for every other colour", pals.len()), true);
+        for (pi, pal) in pals.iter().enumerate() {
+            let mut f = gen::file(1, 1, &Fmt::Rgba, &[1]);
+            f.frames[0].push(new_palette(0, pal.iter().map(|c| pal_entry([c[0], c[1], c[2], 255], None)).collect()));
+            let Loaded::Ok(file) = load(&f.encode()) else { return 2 };
+            let p = file.palette().unwrap();
+            let mapper = PaletteMapper::new(p, MappingOptions { failure: 77, transparent: Some(66) });
+            let bad = std::sync::atomic::AtomicU64::new(0);
+            (0..256u32).into_par_iter().for_each(|r| {
+                for g in 0..256u32 {
+                    for b in 0..256u32 {
+                        let expect = pal.iter().position(|c| *c == [r as u8, g as u8, b as u8]).map(|i| i as u8).unwrap_or(77);
+                        let got = mapper.lookup(r as u8, g as u8, b as u8, 255);
+                        if got != expect && bad.fetch_add(1, std::sync::atomic::Ordering::Relaxed) < 4 {
+                            let case = || format!("palette#{} colour ({},{},{})", pi, r, g, b);
+                            ctx.violation(Violation { family: "all-rgb".into(), case: case(), sig: "lookup:all-rgb".into(), detail: format!("lookup({},{},{},255) = {}, expected {}", r, g, b, got, expect), bytes: None, extra: json!({}) });
+                        }
+                    }
+                }
+                ctx.eval_n(65536, 65536);
+            });
+            ctx.outcome(hash64(&(pi, bad.load(std::sync::atomic::Ordering::Relaxed))));
+        }
+    }
     ctx.note("built with asefile's `utils` feature on; the repository's own suite runs with it off (MANIFEST.hooks.baseline_off_cmd)");
     ctx.finish()
 }
